@@ -23,7 +23,10 @@ def main():
     pid = sys.argv[1]
     checks = [pid]
     tier = "quick"
+    suffix = ""
     for i, a in enumerate(sys.argv):
+        if a == "--suffix":
+            suffix = sys.argv[i + 1]
         if a == "--checks":
             checks = sys.argv[i + 1].split(",")
         if a == "--tier":
@@ -44,7 +47,7 @@ def main():
             r1 = sh(f"/venv/bin/python {demo}", env=env, cwd=d, timeout=600)
             t = sh("/venv/bin/python -m pytest -q -p no:cacheprovider -x 2>&1 | tail -1", env=env, cwd=d, timeout=900)
             confirmed = r0.returncode == 0 and ap.returncode == 0 and r1.returncode == 1 and "45 passed" in t.stdout
-            print(f"[{pid}-{k}] clean demo rc={r0.returncode} apply rc={ap.returncode} changed demo rc={r1.returncode} tests: {t.stdout.strip()} -> "
+            print(f"[{pid}-{suffix}{k}] clean demo rc={r0.returncode} apply rc={ap.returncode} changed demo rc={r1.returncode} tests: {t.stdout.strip()} -> "
                   f"{'CONFIRMED' if confirmed else 'NOT CONFIRMED'}")
             if not confirmed:
                 print(r0.stdout[-300:], ap.stdout[-300:], r1.stdout[-300:])
@@ -55,7 +58,7 @@ def main():
                 lines = [l for l in r.stdout.splitlines() if l.startswith(("VIOLATION", "OK ", "MACHINERY", "  failing clause", "KNOWN"))]
                 results[c] = {"rc": r.returncode, "lines": [l[:300] for l in lines[:4]]}
                 print(f"   check {c}: rc={r.returncode} " + (lines[0][:200] if lines else r.stdout[-200:]))
-            out = os.path.join(VERIF, "seeded", f"{pid}-{k}")
+            out = os.path.join(VERIF, "seeded", f"{pid}-{suffix}{k}")
             os.makedirs(out, exist_ok=True)
             shutil.copy(patch, os.path.join(out, "patch.diff"))
             shutil.copy(demo, os.path.join(out, "demo.py"))
